@@ -93,3 +93,56 @@ let () =
       let ((tr, c), n) = TableInterp.step_rows_quiet (gv_of bits) Datatypes.O (str s) (str e) (TableDef.rows_for t (str s) (str e)) in
       L [L (List.map vcb tr); S c; vint (int_of_nat n)]
     | _ -> failwith "arity")
+
+(* declarations of the generated units: (kind, name, params) triples *)
+let dk_name (k : DeclShape.dk) = match k with
+  | DeclShape.KEventStruct -> "KEventStruct"
+  | DeclShape.KEventPtrTypedef -> "KEventPtrTypedef"
+  | DeclShape.KCtlGuard -> "KCtlGuard"
+  | DeclShape.KCtlGuardMember -> "KCtlGuardMember"
+  | DeclShape.KCtlEntry -> "KCtlEntry"
+  | DeclShape.KCtlExit -> "KCtlExit"
+  | DeclShape.KCtlAction -> "KCtlAction"
+  | DeclShape.KIfcIs -> "KIfcIs"
+  | DeclShape.KIfcTrigger -> "KIfcTrigger"
+  | DeclShape.KFwdState -> "KFwdState"
+  | DeclShape.KGuardFunctor -> "KGuardFunctor"
+  | DeclShape.KEntryFunctor -> "KEntryFunctor"
+  | DeclShape.KExitFunctor -> "KExitFunctor"
+  | DeclShape.KActionFunctor -> "KActionFunctor"
+  | DeclShape.KInstEntry -> "KInstEntry"
+  | DeclShape.KInstExit -> "KInstExit"
+  | DeclShape.KInstAction -> "KInstAction"
+  | DeclShape.KInstGuard -> "KInstGuard"
+  | DeclShape.KDispatchDef -> "KDispatchDef"
+  | DeclShape.KImplIs -> "KImplIs"
+  | DeclShape.KImplTrigger -> "KImplTrigger"
+  | DeclShape.KTestGuard -> "KTestGuard"
+  | DeclShape.KTestEntry -> "KTestEntry"
+  | DeclShape.KTestExit -> "KTestExit"
+  | DeclShape.KTestAction -> "KTestAction"
+  | DeclShape.KCsEventClass -> "KCsEventClass"
+  | DeclShape.KCsGuard -> "KCsGuard"
+  | DeclShape.KCsAction -> "KCsAction"
+  | DeclShape.KCsEntry -> "KCsEntry"
+  | DeclShape.KCsExit -> "KCsExit"
+  | DeclShape.KCsIs -> "KCsIs"
+  | DeclShape.KCsTrigger -> "KCsTrigger"
+  | DeclShape.KCsEnum -> "KCsEnum"
+  | DeclShape.KCsBaseHandler -> "KCsBaseHandler"
+  | DeclShape.KCsDispatchPart -> "KCsDispatchPart"
+  | DeclShape.KCsStateClass -> "KCsStateClass"
+let fid_of = function
+  | "ctl" -> Decls.FCtl | "ifc" -> Decls.FIfc | "impl" -> Decls.FImpl | "test" -> Decls.FTest
+  | "cs_context" -> Decls.FCsContext | "cs_sm" -> Decls.FCsSm | "cs_internals" -> Decls.FCsInternals | _ -> failwith "fid"
+let fid_name = function
+  | Decls.FCtl -> "ctl" | Decls.FIfc -> "ifc" | Decls.FImpl -> "impl" | Decls.FTest -> "test"
+  | Decls.FCsContext -> "cs_context" | Decls.FCsSm -> "cs_sm" | Decls.FCsInternals -> "cs_internals"
+let iface_of v = List.map (fun e -> match lst e with [n; ps] -> (str n, strs ps) | _ -> failwith "iface entry") (lst v)
+let vdecl ((k, n), ps) = L [S (dk_name k); S n; vstrs ps]
+
+let () =
+  register "decls" (function [f; t; i] -> L (List.map vdecl (Decls.decls_file (fid_of (str f)) (table_of t) (iface_of i))) | _ -> failwith "arity");
+  register "refs" (function [lang; t; i] ->
+      let r = if str lang = "cs" then Decls.refs_cs (table_of t) (iface_of i) else Decls.refs_cpp (table_of t) (iface_of i) in
+      L (List.map (fun (f, d) -> L [S (fid_name f); vdecl d]) r) | _ -> failwith "arity")
